@@ -271,6 +271,9 @@ def make_world():
     return World()
 
 def replay(case):
+    if "reject_case" in case:
+        with harness.quiet():
+            return judge_reject(case["reject_case"])["violations"]
     if "flag_case" in case:
         with harness.quiet():
             return [v for v in flag_lattice()[0] if v["case"] == case]
@@ -400,6 +403,51 @@ def _run_with_flags(fam, c, arrays, rg, sg, inside_no_grad):
     finally:
         Tn.__init__ = orig_init
 
+def judge_reject(case):
+    """a call the library refuses (any rejected case of the forward lattices, issued in each of the contexts plain / no_grad /
+    retain_grads) raises and leaves the modes exactly as they were: modes are changed by the contexts only"""
+    from mc import catalog_tensor as ct, catalog_nn as cn
+    sg = harness.load()
+    fam = cn if "form" in case else ct
+    arrays = fam.arrays_for(case)
+    rg = [a.dtype.kind == "f" for a in arrays]
+    viol = []; rejected = False
+    for ctx in ("plain", "no_grad", "retain_grads"):
+        harness.reset_modes(verify=False)
+        cm = {"plain": None, "no_grad": sg.no_grad, "retain_grads": sg.retain_grads}[ctx]
+        raised = False
+        try:
+            if cm is None:
+                fam.run_lib(case, arrays, rg)
+            else:
+                with cm():
+                    try:
+                        fam.run_lib(case, arrays, rg)
+                    except harness.HarnessError:
+                        raise
+                    except Exception:
+                        raised = True
+                    inside = (harness.grad_mode_probe(), None)
+                    if inside[0] != (ctx != "no_grad"):
+                        viol.append({"kind": "rejected-call-changed-grad-mode", "detail": f"{case['op']} raised inside {ctx}; grad mode inside the block is now {inside[0]}"})
+        except harness.HarnessError:
+            raise
+        except Exception:
+            raised = True
+        if not raised:
+            break            # accepted: C05 / C06 territory
+        rejected = True
+        g = harness.grad_mode_probe(); r = harness.retain_mode_probe() if g else None
+        if g is not True:
+            viol.append({"kind": "rejected-call-changed-grad-mode", "detail": f"{case['op']} with {case.get('args')} raised ({ctx}); afterwards gradient tracking is disabled"})
+        elif r:
+            viol.append({"kind": "rejected-call-changed-retain-mode", "detail": f"{case['op']} with {case.get('args')} raised ({ctx}); afterwards retain mode is on"})
+    harness.reset_modes(verify=False)
+    uniq = []
+    for x in viol:
+        if all(u["kind"] != x["kind"] for u in uniq): uniq.append(x)
+    return {"nontrivial": rejected, "outcome": "rejected" if rejected else "accepted", "violations": uniq}
+
 def run(tier, seed):
     global THOROUGH
     THOROUGH = tier == "thorough"
@@ -418,10 +466,17 @@ def run(tier, seed):
         lv, ln = leaf_lattice()
         fv, fn_ = flag_lattice()
     res.violations.extend(lv); res.violations.extend(fv)
+    from mc import engine, catalog_tensor as ct_, catalog_nn as cn_
+    rej = engine.run_cases(ct_.cases("quick", "forward") + cn_.cases("quick", "forward"), judge_reject)
+    for x in rej["violations"]:
+        x["case"] = {"reject_case": x["case"]}
+    res.violations.extend(rej["violations"])
+    cov["rejected_call_cases"] = {"evaluations": rej["evaluations"], "rejected": rej["outcomes"].get("rejected", 0)}
     cov["flag_propagation_cases"] = fn_
     cov["leaf_constructor_cases"] = ln
     cov["rule"] += (f"; plus {ln} leaf-construction cases (every constructor x data kind x dtype argument x grad mode with requires_grad=True) "
-                    f"and {fn_} flag-propagation cases (every op / layer / loss of both catalogues x every subset of operand flags x grad mode)")
+                    f"and {fn_} flag-propagation cases (every op / layer / loss of both catalogues x every subset of operand flags x grad mode); "
+                    f"{rej['outcomes'].get('rejected', 0)} rejected calls of the forward lattices, each issued plain / inside no_grad / inside retain_grads: modes unchanged after the raise")
     if tier == "thorough":
         audit = explorer.explore(make_world, 5, merge=False)
         merged5 = explorer.explore(make_world, 5)
